@@ -23,6 +23,10 @@ scheduler in `track_only` mode.  Whoever detaches the adapter's node from the sl
 *completion* and runs it: `nloads` further loads of the slot (`ready()` in `*_fut`, `pending()` inside `value()` of a
 future without value), then callback / converter / release of the helper block.
 
+Re-use: `future_conv` and `call_fn_future_awaiter` objects serve one operation after the other; the adapter's awaiter
+node is the same every time, and its `_next` link (`nxt`) is the expected value of the next subscribing CAS.  `initWith`
+starts an operation with the link the previous one left behind, `runOps` chains operations.
+
 `Pre`: callbacks do not throw (documented contract).  The model keeps the as-is behaviour of a throwing callback for
 `callback_await` (`cbThrows`): the coroutine's catch block invokes it a second time.
 
@@ -148,6 +152,7 @@ structure State where
   published : Bool := false
   pc : Nat → Pc
   outer : Option OuterRes := none
+  nxt : Slot := Slot.null        -- `_next` of the adapter's awaiter node = expected value of its next subscribing CAS
   -- ghost
   tok : Tok
   calls : Nat := 0
@@ -171,14 +176,20 @@ def initPc (c : Cfg) (i : Nat) : Pc :=
     | some _ => Pc.rArrive
     | none => Pc.dArrive
 
-def init (c : Cfg) : State :=
+/-- initial state of one awaited operation; `nx` is the `_next` link the adapter's awaiter node carries over from the
+previous operation on the same helper object (`future_conv`, `call_fn_future_awaiter` are re-armed with `<<`) -/
+def initWith (c : Cfg) (nx : Slot) : State :=
   { owner := c.pre.isNone
+    nxt := nx
     slot := if c.pre.isSome then Slot.ready else Slot.null
     payload := match c.pre with | some k => k.payload | none => Outcome.none
     pc := fun i => if i < c.n then initPc c i else Pc.done
     tok := Tok.agent 0
     wins := if c.pre.isSome then 1 else 0
     winner := if c.pre.isSome then some Win.factory else none }
+
+/-- first operation on a helper object: the node's `_next` is null -/
+def init (c : Cfg) : State := initWith c Slot.null
 
 /-- does the adapter own a heap / storage block -/
 def Adapter.allocates : Adapter → Bool
@@ -317,15 +328,21 @@ def compStep (c : Cfg) (s : State) (t : Nat) (k : Nat) (w : Who) : State × List
       | Who.dt => retStep s1 t true
     (r2.1, r.2 ++ r2.2)
 
-/-- the subscribing CAS of the registrar (`subscribe_check_ready`, expected value null) -/
+/-- the subscribing CAS of the registrar (`subscribe_check_ready`): expected value = the node's `_next`.  Success links
+the node in; a failure stores the observed head into `_next`; on seeing "ready" the node is unlinked again
+(`_next = nullptr`) and the subscription is refused, otherwise the CAS is retried -/
 def casStep (c : Cfg) (s : State) : State × List Ev :=
-  match s.slot with
-  | Slot.null => ({ setPc s 0 Pc.gParked with slot := Slot.node, tok := Tok.slot }, [Ev.opCas 0 true Slot.null])
-  | sl => (setPc s 0 (Pc.comp (nloads c s.payload) Who.reg), [Ev.opCas 0 false sl])
+  if s.slot = s.nxt then
+    ({ setPc s 0 Pc.gParked with slot := Slot.node, tok := Tok.slot }, [Ev.opCas 0 true s.slot])
+  else if s.slot = Slot.ready then
+    ({ setPc s 0 (Pc.comp (nloads c s.payload) Who.reg) with nxt := Slot.null }, [Ev.opCas 0 false Slot.ready])
+  else ({ setPc s 0 Pc.gCas with nxt := s.slot }, [Ev.opCas 0 false s.slot])
 
 /-- the plain prefix of the registration: helper allocation, factory call (the promise becomes available) -/
 def prep (c : Cfg) (s : State) : State :=
-  { s with published := true, allocs := s.allocs + (if c.adapter.allocates then 1 else 0) }
+  { s with published := true, allocs := s.allocs + (if c.adapter.allocates then 1 else 0),
+           -- a freshly allocated helper has a fresh awaiter node; the member-object adapters re-use theirs
+           nxt := if c.adapter.allocates then Slot.null else s.nxt }
 
 /-- first step of the registrar: `prep`, then the first operation on a shared atomic.  `callback_await` asks `ready()`
 first; `make_promise` pre-loads the slot with its own node and touches nothing shared; the others subscribe at once -/
@@ -349,7 +366,7 @@ def resolveStep (c : Cfg) (s : State) (t : Nat) (dt : Bool) : State × List Ev :
   match s.slot with
   | Slot.node =>
       ({ setPc s t (Pc.comp (nloads c pay) (if dt then Who.dt else Who.res)) with
-          payload := pay, slot := Slot.ready, tok := Tok.agent t },
+          payload := pay, slot := Slot.ready, tok := Tok.agent t, nxt := Slot.null },   -- walker: `y->_next = nullptr`
        [Ev.opXchgSlot t Slot.node])
   | sl => ({ setPc s t (Pc.rRet dt) with payload := pay, slot := Slot.ready }, [Ev.opXchgSlot t sl])
 
@@ -376,5 +393,17 @@ def run (c : Cfg) (s : State) (sched : List Nat) : State :=
   sched.foldl (fun s t => if enabled c s t then (astep c s t).1 else s) s
 
 def allDone (c : Cfg) (s : State) : Bool := (List.range c.n).all fun i => s.pc i == Pc.done
+
+/-- one awaited operation on a helper object: its configuration and the schedule it runs under -/
+structure OpRun where
+  c : Cfg
+  sched : List Nat
+
+/-- successive operations on one helper object (`future_conv` / `call_fn_future_awaiter` re-armed with `<<`): each
+operation has its own source future, promise, agents and ghost counters, and starts with the `_next` link the previous
+operation left in the adapter's awaiter node; returns the final state of every operation -/
+def runOps : Slot → List OpRun → List State
+  | _, [] => []
+  | nx, o :: rest => (run o.c (initWith o.c nx) o.sched) :: runOps (run o.c (initWith o.c nx) o.sched).nxt rest
 
 end Cocls.Callback
